@@ -207,6 +207,25 @@ func evalC16(c *engine.Case) engine.Verdict {
 	}
 	v.NonTrivial = dup || override || casing
 
+	if x.NilOpt >= 0 && x.Split > 0 {
+		// a nil option among the defaults: NewFunc must report an error, not panic
+		var o2 engine.Outcome
+		var nerr error
+		engine.Protect(&o2, func() {
+			w := engine.NewWorld()
+			tgt := x.Target
+			_, nerr = w.Realize(&tgt, append(entryArgs(x.Opts[:x.Split], -1), nil)...)
+		})
+		if o2.Panic != "" {
+			v.Failf("NewFunc with a nil default option panicked: %s", o2.Panic)
+			return v
+		}
+		if nerr == nil {
+			v.Failf("NewFunc accepted a nil default option without an error")
+			return v
+		}
+		v.Class("nil-default-option")
+	}
 	o, got, err := runOpts(&x, x.Opts[:x.Split], x.Opts[x.Split:], x.NilOpt)
 	if err != nil {
 		v.Failf("NewFunc with non-nil default options failed: %v", err)
